@@ -46,6 +46,12 @@ Theorem C17_no_drop_path_never_drops_the_seed : forall outs sched,
   seed_drops (run false sched (init outs)) = 0.
 Proof. exact no_drop_path_never_drops_the_seed_early. Qed.
 
+(* the once-state the model abstracts (one initialiser at a time, publication with release / acquire)
+   is once_cell's thread-safe cell *)
+Theorem C17_code_once_cell_is_the_sync_one :
+  fn_body OnceCell_import = [EPath ["once_cell"%string; "sync"%string; "OnceCell"%string]].
+Proof. exact once_cell_is_the_sync_one. Qed.
+
 Example C17_nonvacuous :
   let c := run true [0; 1; 0; 1; 2; 1; 1; 2]%nat (init [Fail; Ok; Panic]) in
   quiescent c = true /\ inited c = true /\ successes c = 1 /\ seed_drops c = 1 /\
